@@ -62,7 +62,16 @@ func TestDbgSrc(t *testing.T) {
 	r, _ := ch.Deploy(pkg, string(src))
 	fmt.Println("deploy:", r.Error != nil, strings.Split(rkErr(r), "\n")[0])
 	for _, c := range strings.Split(os.Getenv("DBG_CALLS"), "|") {
-		r, _ := ch.Call(pkg, c)
+		parts := strings.Split(c, ":")
+		if parts[0] == "RESTART" {
+			ch.C.Restart()
+			continue
+		}
+		r, _ := ch.Call(pkg, parts[0], parts[1:]...)
+		if q := os.Getenv("DBG_Q"); q != "" {
+			qs, qe := ch.QStr(pkg, q)
+			fmt.Printf("   q %s = %s %v\n", q, qs, qe)
+		}
 		fmt.Printf("call %s: failed=%v data=%q %s\n", c, r.Error != nil, r.Data, strings.Split(rkErr(r), "\n")[0])
 		if os.Getenv("DBG_SHOW") != "" {
 			sn, err := rkSnapshot(ch.DB)
